@@ -19,3 +19,16 @@ PROP = dict(
     targets=[tgt('c08_tls_server', 0, 0, 'tape'), tgt('c08_tls_client', 0, 1, 'tape'), tgt('c08_dtls_server', 1, 0, 'tape'), tgt('c08_dtls_client', 1, 1, 'tape'),
              tgt('c08_tls_server', 0, 0, 'libfuzzer'), tgt('c08_tls_client', 0, 1, 'libfuzzer'), tgt('c08_dtls_server', 1, 0, 'libfuzzer'), tgt('c08_dtls_client', 1, 1, 'libfuzzer')],
 )
+# ---- TLS 1.3 parsers behind record protection: a keyed mutating peer (harness/puppet13) sends grammar-aware mutations of
+# EncryptedExtensions / CertificateRequest / Certificate / CertificateVerify / Finished / NewSessionTicket / KeyUpdate / EndOfEarlyData
+# sealed under the real traffic keys, to a client or server victim (props/C08/keyed13.cc)
+_SRC_K13 = ['props/C08/keyed13.cc', 'harness/puppet13.cc', 'harness/wraps.c', 'harness/shim.c']
+PROP['targets'] += [
+    dict(name='c08_tls13_keyed', src=_SRC_K13, libs=['-lcrypto'], wraps=WRAPS, env={'VERIF_DIR': '/verif'}, hang_is_violation=True,
+         quick=dict(cases=3200, secs=25), thorough=dict(cases=250000, secs=420)),
+]
+PROP['level_note'] = PROP['level_note'].replace('(a keyed mutating peer is not built)', '(except TLS 1.3, where c08_tls13_keyed is a keyed mutating peer)')
+PROP['rule'] += (' || c08_tls13_keyed: input = (victim role, RSA/ECDSA, client-auth, group, client session-id object, 0-2 target messages, grammar-aware body with generated fields and 1-2 inconsistent length prefixes, '
+                 'truncation at a structural boundary / trailing bytes / bit flips / inconsistent handshake header, record framing and receive chunking); non-trivial = the mutated message was sealed under the right keys and reached a live victim '
+                 '(no bad_record_mac); distinct by (role, cert, client-auth, targets, outcome, alert, mutation classes)')
+
